@@ -155,6 +155,22 @@ pub fn lattice_orient(cx: &mut Ctx, case: &Value) {
         let got = sign_of(SimpleKernel::orient2d(j(a), j(b), j(q)));
         if got == want { cx.ok("orient2d_i32"); } else { cx.bad("C03", "orient2d_i32", case, json!({"got": got, "want": want})); }
     }
+    // the two other kernel helpers: sign of a dot product (robust) and the squared distance
+    {
+        let want = case["dots"].as_i64().unwrap();
+        for s in [1.0f64, 2f64.powi(52), 2f64.powi(-500)] {
+            let f = |p: (i64, i64)| Coord { x: p.0 as f64 * s, y: p.1 as f64 * s };
+            let (u, v) = (f((b.0 - a.0, b.1 - a.1)), f((d.0 - c.0, d.1 - c.1)));
+            let got = sign_of(RobustKernel::dot_product_sign(u, v));
+            if got == want { cx.ok("dot_product_sign"); } else { cx.bad("C03", "dot_product_sign", case, json!({"scale": s, "got": got, "want": want})); }
+        }
+        let fi = |p: (i64, i64)| Coord { x: p.0 as f64, y: p.1 as f64 };
+        let got = RobustKernel::square_euclidean_distance(fi(a), fi(c));
+        let ii = |p: (i64, i64)| Coord { x: p.0 << 20, y: p.1 << 20 };
+        let goti = SimpleKernel::square_euclidean_distance(ii(a), ii(c));
+        let w = case["d2ac"].as_i64().unwrap();
+        if got == w as f64 && goti == w << 40 { cx.ok("square_euclidean_distance"); } else { cx.bad("C03", "square_euclidean_distance", case, json!({"got": [got, goti as f64], "want": w})); }
+    }
     // integer segment intersects agrees with the lattice relation
     let i = |p: (i64, i64)| Coord { x: (p.0 - 2) << 20, y: (p.1 - 1) << 20 };
     let got = Line::new(i(a), i(b)).intersects(&Line::new(i(c), i(d)));
